@@ -93,7 +93,7 @@ def valid_po(rnd, bs, order):
     return rnd.choice(cands) if cands else None
 
 
-def make_sub(rnd, ch_vals, bs, depth, force=None):
+def make_sub(rnd, ch_vals, bs, depth, force=None, maxw=32):
     """chooses a subframe coding for the channel values (already at this subframe's depth)"""
     allsame = all(v == ch_vals[0] for v in ch_vals)
     types = ["verbatim", "fixed", "lpc", "fixed", "lpc"] + (["constant"] * 3 if allsame else [])
@@ -103,7 +103,7 @@ def make_sub(rnd, ch_vals, bs, depth, force=None):
     # wasted bits actually available
     nz = [v for v in ch_vals if v != 0]
     avail = min(((v & -v).bit_length() - 1) for v in nz) if nz else 0
-    w = min(avail, depth - 1)
+    w = min(avail, depth - 1, maxw)
     sub = {"type": ty, "wasted": w}
     s = [v >> w for v in ch_vals]
     bps = depth - w
@@ -194,10 +194,9 @@ def stream_plan(rnd, pid, small=True, nframes=None, variable=None, size_pool=Non
         elif assign == "ms":
             vals, depths = [mid, side], [bps, bps + 1]
         if bps == 32 and assign != "indep":
-            # 33-bit side channel: FlacGen writes it CONSTANT or VERBATIM only (pair arithmetic in the model)
+            # 33-bit side channel (pair arithmetic in the model): any subframe type; wasted bits up to 16
             sidx = 0 if assign == "sr" else 1
-            subs = [({"type": "constant" if all(x == side[0] for x in side) and rnd.random() < 0.7 else "verbatim", "wasted": 0} if c == sidx
-                     else make_sub(rnd, vals[c], bs, depths[c])) for c in range(channels)]
+            subs = [make_sub(rnd, vals[c], bs, depths[c], maxw=16 if c == sidx else 32) for c in range(channels)]
         else:
             subs = [make_sub(rnd, vals[c], bs, depths[c]) for c in range(channels)]
         fr = {"bs": bs, "chassign": assign, "subs": subs,
@@ -390,6 +389,33 @@ def directed_valid(start_id):
                 out.append({"id": k, "channels": 2, "bps": bps, "rate": 44100, "ratecode": "table", "bpscode": "hdr" if bps in TABLE_BPS else "si", "variable": False,
                             "total_known": True, "md5": "good", "subset": False, "class": None,
                             "frames": [{"bs": bs, "chassign": assign, "subs": [sub(), sub()], "bscode": "auto", "overlong": 0}], "pcm": [L, R]})
+    # predictors on the 33-bit side channel of 32-bit audio: two smooth channels far apart (side near +-2^32) or close together, every
+    # decorrelation, FIXED orders 0..4 and LPC of several orders / precisions / shifts, with and without wasted bits on the side channel
+    rnd = random.Random(start_id * 7 + 33)
+    for shape in ("far", "near", "crossing", "wasted1", "wasted5", "wasted16"):
+        for assign in ("ls", "sr", "ms"):
+            for force in ("fixed", "lpc", "lpc", "fixed"):
+                bs = rnd.choice([16, 24, 33, 64])
+                wsh = {"wasted1": 1, "wasted5": 5, "wasted16": 16}.get(shape, 0)
+                hi = (1 << 31) - 1
+                amp = rnd.choice([3, 1000, 1 << 20])
+                a = (hi - bs * amp - 5) if shape in ("far", "crossing") else rnd.randint(-(1 << 20), 1 << 20)
+                b = (-hi + bs * amp + 5) if shape == "far" else (a if shape != "crossing" else -a)
+                L, R = [], []
+                for i in range(bs):
+                    a = max(-hi - 1, min(hi, a + rnd.randint(-amp, amp) + (-(amp * 2) if shape == "crossing" else 0)))
+                    b = max(-hi - 1, min(hi, b + rnd.randint(-amp, amp) + ((amp * 2) if shape == "crossing" else 0)))
+                    L.append((a >> wsh) << wsh)
+                    R.append((b >> wsh) << wsh)
+                side = [l - r for l, r in zip(L, R)]
+                mid = [(l + r) >> 1 for l, r in zip(L, R)]
+                vals, depths = {"ls": ([L, side], [32, 33]), "sr": ([side, R], [33, 32]), "ms": ([mid, side], [32, 33])}[assign]
+                sidx = 0 if assign == "sr" else 1
+                subs = [make_sub(rnd, vals[c], bs, depths[c], force=force if c == sidx else None, maxw=16 if c == sidx else 32) for c in range(2)]
+                k += 1
+                out.append({"id": k, "channels": 2, "bps": 32, "rate": 44100, "ratecode": "table", "bpscode": "hdr", "variable": False,
+                            "total_known": True, "md5": "good", "subset": True, "class": None,
+                            "frames": [{"bs": bs, "chassign": assign, "subs": subs, "bscode": "auto", "overlong": 0}], "pcm": [L, R]})
     for p in out:
         del p["class"]
     return out
